@@ -33,6 +33,9 @@ pub enum Op {
     Disable(Vec<String>),
     /// load bytes serialized by a sibling engine (same rules) whose enabled set is `other_tags`
     Reload(Vec<String>),
+    /// a load that FAILS (truncated bytes of a sibling engine, or a bare header): the enabled set
+    /// and everything else stays as it was
+    ReloadBad(u8),
 }
 
 #[derive(Clone, Debug, Serialize, Deserialize)]
@@ -186,6 +189,21 @@ fn run_history(
                 e.deserialize(&bytes).map_err(|e| format!("deserialize failed: {:?}", e))?;
                 obs.label("reload");
                 // the caller's enabled set is kept
+            }
+            Op::ReloadBad(k) => {
+                let sib = build_engine(ls, false, optimize, &res);
+                let bytes = sib.serialize_raw().map_err(|e| format!("serialize failed: {:?}", e))?;
+                let bad: Vec<u8> = match k % 4 {
+                    0 => bytes[..bytes.len() / 2].to_vec(),
+                    1 => bytes[..5.min(bytes.len())].to_vec(),
+                    2 => vec![],
+                    _ => bytes[..bytes.len() - 1].to_vec(),
+                };
+                if e.deserialize(&bad).is_ok() {
+                    obs.exclude("a truncated buffer that loads");
+                    return Ok(());
+                }
+                obs.label("failed-reload");
             }
         }
         if before != set {
@@ -376,7 +394,7 @@ pub fn decode_shared(t: &mut Tape) -> SharedCase {
             0 | 1 => Op::Use(tagset(t)),
             2 | 3 => Op::Enable(tagset(t)),
             4 | 5 => Op::Disable(tagset(t)),
-            _ => Op::Reload(tagset(t)),
+            _ => if t.chance(1, 3) { Op::ReloadBad(t.pick(4) as u8) } else { Op::Reload(tagset(t)) },
         });
     }
     SharedCase { groups, ops, optimize: t.chance(3, 4) }
@@ -414,14 +432,14 @@ pub fn decode(t: &mut Tape) -> TagCase {
             0 | 1 => Op::Use(tagset(t)),
             2 | 3 => Op::Enable(tagset(t)),
             4 | 5 => Op::Disable(tagset(t)),
-            _ => Op::Reload(tagset(t)),
+            _ => if t.chance(1, 3) { Op::ReloadBad(t.pick(4) as u8) } else { Op::Reload(tagset(t)) },
         });
     }
     TagCase { rules, ops, optimize: t.chance(1, 2) }
 }
 
 pub fn check(ctx: &mut Ctx) {
-    ctx.rule = "1-6 tagged rules, each of kind blocking / exception (with an untagged blocker behind it) / important (with an untagged exception it must beat) / csp, 4 pattern shapes, tags from a pool of 5, optimisation on/off; history of 1-8 use/enable/disable (duplicates, unknown tags, empty sets) and reload ops (bytes serialized by a sibling engine holding a different enabled set). After every op each rule's private probe request and tag_exists over the pool (+ \"\" and an unknown tag) are compared with a set model. shared: 2-7 groups of tagged blocking / exception / important rules whose patterns share tokens from a pool of 2-4 (plain or '*' patterns, the per-rule suffix is never a token; 1 group in 3 doubles every rule with a same-pattern twin under another tag, so a probe is active when either tag is enabled; 1 group in 6 is untagged and 1 in 6 carries the empty tag `tag=`, which op sets may enable), so bucket membership and optimiser fusion depend on the enabled set; 1 in 30 cases uses 2-3 groups of 2/63/64/65/66/129 rules in one bucket; same histories and set model. Non-trivial = at least two set-changing ops and a rule whose activity flips.".into();
+    ctx.rule = "1-6 tagged rules, each of kind blocking / exception (with an untagged blocker behind it) / important (with an untagged exception it must beat) / csp, 4 pattern shapes, tags from a pool of 5, optimisation on/off; history of 1-8 use/enable/disable (duplicates, unknown tags, empty sets) and reload ops (bytes serialized by a sibling engine holding a different enabled set; 1 in 3 a FAILING load of truncated bytes, after which nothing may have changed). After every op each rule's private probe request and tag_exists over the pool (+ \"\" and an unknown tag) are compared with a set model. shared: 2-7 groups of tagged blocking / exception / important rules whose patterns share tokens from a pool of 2-4 (plain or '*' patterns, the per-rule suffix is never a token; 1 group in 3 doubles every rule with a same-pattern twin under another tag, so a probe is active when either tag is enabled; 1 group in 6 is untagged and 1 in 6 carries the empty tag `tag=`, which op sets may enable), so bucket membership and optimiser fusion depend on the enabled set; 1 in 30 cases uses 2-3 groups of 2/63/64/65/66/129 rules in one bucket; same histories and set model. Non-trivial = at least two set-changing ops and a rule whose activity flips.".into();
     ctx.assumptions = vec!["tag+redirect, tag+removeparam and tag+generichide are documented as unsupported and are not generated".into()];
     let n = ctx.tier.pick(120_000, 2_000_000);
     drive(ctx, "history", n, 200, &decode, &check_case);
